@@ -95,7 +95,12 @@ class SemLock:
 
         # When the object is garbage collected or the
         # process shuts down we unlink the semaphore name
-        resource_tracker.register(self._semlock.name, "semlock")
+        try:
+            resource_tracker.register(self._semlock.name, "semlock")
+        except BaseException:
+            # Neither tracked nor finalized: do not leave it behind.
+            sem_unlink(self._semlock.name)
+            raise
         util.Finalize(
             self, SemLock._cleanup, (self._semlock.name,), exitpriority=0
         )
